@@ -5,13 +5,14 @@ import torch
 from hypothesis import strategies as st
 
 from vlib import aggs, refs, relations as rel
-from vlib.matrices import SEEDS, build, eps_of, smax
+from vlib.matrices import SEEDS, build, eps_of, smax, widen
 from vlib.runner import RAISED, Outcome, Part
 
 ID = "C09"
 RULE = (
     "Hypothesis-generated (aggregator, J, c1, c2, a, b): c entries 10^U(-3,3), a, b in (0.1, 10), J Gaussian / "
-    "conflicting / prescribed-SVD (full row rank, cond <= 30, for ConFIG and UPGrad), global scale 10^{0,+-2,+-3}, "
+    "conflicting / prescribed-SVD (full row rank, cond <= 30, for ConFIG and UPGrad), global scale 10^{0,+-2,+-3,-7,-10}, a quarter widened by 600 Gaussian columns, the three related calls made on ONE "
+    "aggregator instance, "
     "1<=m<=6, 1<=n<=9. Oracle "
     "(metamorphic): |A(diag(a c1 + b c2) J) - a A(diag(c1) J) - b A(diag(c2) J)| <= K eps sum of scales for Mean, "
     "Sum, Constant(drawn weights), ConFIG(pref), PCGrad (scripted schedule, branch margins above threshold) and "
@@ -50,7 +51,8 @@ def _case(draw):
     else:
         fam = draw(st.sampled_from(["gauss", "conflict", "gauss", "grid"]))
         J = rng.integers(-4, 5, size=(m, n)) / 2.0 if fam == "grid" else build(fam, m, n, rng, {"eps": 1e-2, "delta": 1e-2})
-    J = J * 10.0 ** draw(st.sampled_from([0, 0, -3, -2, 2, 3]))
+    J = J * 10.0 ** draw(st.sampled_from([0, 0, -3, -2, 2, 3, -10, -7]))
+    extra = draw(st.sampled_from([None, None, None, {"k": 600, "kind": "gauss"}]))
     spec = {"name": name}
     if name in ("ConFIG", "UPGrad") and draw(st.booleans()):
         spec["pref"] = (10.0 ** rng.uniform(-1, 1, size=m)).tolist()
@@ -64,7 +66,7 @@ def _case(draw):
     a = 10.0 ** draw(st.floats(-1, 1))
     b = 10.0 ** draw(st.floats(-1, 1))
     case = {"agg": spec, "dtype": dtype, "J": J.tolist(), "family": fam, "c1": c1, "c2": c2, "a": a, "b": b,
-            "seed": draw(st.integers(0, 2**31 - 1))}
+            "seed": draw(st.integers(0, 2**31 - 1)), "extra_cols": extra}
     if name == "PCGrad":
         case["schedule"] = [rng.permutation(m).tolist() for _ in range(m)]
     return case
@@ -75,8 +77,8 @@ def parts(tier):
     return [Part("generated", "given", n=n, strategy=_case)]
 
 
-def _run(spec, dtype, Jt, case):
-    A = aggs.make(spec, dtype)
+def _run(spec, dtype, Jt, case, A=None):
+    A = A if A is not None else aggs.make(spec, dtype)
     torch.manual_seed(case["seed"])
     if spec["name"] == "PCGrad":
         with rel.ScriptedRandperm(case["schedule"]):
@@ -94,8 +96,10 @@ def run_case(case) -> Outcome:
     name = spec["name"]
     eps = eps_of(dtype)
     tdt = getattr(torch, dtype)
-    J = torch.tensor(case["J"], dtype=tdt).double().numpy()
+    J = torch.tensor(widen(np.array(case["J"]), case.get("extra_cols"), case["seed"]), dtype=tdt).double().numpy()
     m, n = J.shape
+    if case.get("extra_cols"):
+        out.cls("wide")
     a, b = case["a"], case["b"]
     c1, c2 = np.array(case["c1"]), np.array(case["c2"])
     c3 = a * c1 + b * c2
@@ -144,8 +148,9 @@ def run_case(case) -> Outcome:
                 out.cls("rung-out-of-domain")
                 continue
         xs, wns = [], []
+        A_same = aggs.make(sp, dtype)  # ONE instance for the three related calls, as a user would do
         for Jt in Js:
-            r = out.call(f"raises:{name}", _run, sp, dtype, Jt, case)
+            r = out.call(f"raises:{name}", _run, sp, dtype, Jt, case, A_same)
             if r is RAISED:
                 return out
             xs.append(r[0].double().numpy())
